@@ -1,0 +1,1 @@
+//! Hooks for property C27 (empty unless needed).
